@@ -310,7 +310,7 @@ func (h *Sources) Write(infer bool) {
 
 		// Don't write it if the history source has reached
 		// the maximum number of lines allowed (inputrc)
-		if h.maxEntries == 0 || h.maxEntries >= history.Len() {
+		if h.maxEntries == 0 || (h.maxEntries > 0 && history.Len() >= h.maxEntries) {
 			continue
 		}
 
@@ -319,7 +319,7 @@ func (h *Sources) Write(infer bool) {
 		// Don't write the line if it's identical to the last one.
 		last, err := history.GetLine(history.Len() - 1)
 		if err == nil && last != "" && strings.TrimSpace(last) == strings.TrimSpace(line) {
-			return
+			continue
 		}
 
 		// Save the line and notify through hints if an error raised.
